@@ -41,9 +41,17 @@ def decompose(rng, prog):
         main.append("#define WITH_EXTRA 1")
     main.append("")
     main.append("table(glyph)")
-    target = inc if use_inc else main
-    tname = "cls.gdh" if use_inc else "p.gdl"
+    # include files in a subdirectory, one of them including a sibling by its bare name (resolved relative to the
+    # including file); sometimes an unrelated file of that name sits next to the main file
+    nested = use_inc and rng.random() < 0.5
+    incname = "inc/cls.gdh" if nested else "cls.gdh"
+    more = ["// more classes", ""]
+    if nested:
+        inc.append('#include "more.gdh"')
     for c in classes:
+        to_more = nested and rng.random() < 0.5
+        target = more if to_more else inc if use_inc else main
+        tname = "inc/more.gdh" if to_more else incname if use_inc else "p.gdl"
         r = rng.random()
         if r < 0.25:
             nm, body = c.split(" = ", 1)
@@ -65,7 +73,7 @@ def decompose(rng, prog):
             target.append("this text is skipped ; ) (")
             target.append("#endif")
     if use_inc:
-        main.append('#include "cls.gdh"')
+        main.append('#include "%s"' % incname)
     main.append("#ifdef WITH_EXTRA")
     main.append("cExtraUnused = glyphid(2);")
     main.append("#else")
@@ -94,7 +102,12 @@ def decompose(rng, prog):
     main.append("endtable;")
     files = {"p.gdl": main}
     if use_inc:
-        files["cls.gdh"] = inc
+        files[incname] = inc
+    if nested:
+        files["inc/more.gdh"] = more
+        if rng.random() < 0.5:
+            files["more.gdh"] = ["// an unrelated file with the same name, next to the main file"] + [
+                "%s = glyphid(1);" % c.split(" = ", 1)[0] for c in classes]
     return files, pos
 
 
@@ -104,6 +117,7 @@ def flat(prog):
 
 def write_files(d, files):
     for fn, lines in files.items():
+        os.makedirs(os.path.dirname(os.path.join(d, fn)), exist_ok=True)
         open(os.path.join(d, fn), "w").write("\n".join(lines) + "\n")
 
 
@@ -174,7 +188,7 @@ def run(tier, seed, replay=None):
             if not cites:
                 problems.append("seed at %s(%d): no error cites the undefined class (errors: %s)" % (fn, ln, [l for l in err.split("\n") if "error" in l][:3]))
                 continue
-            if (fn, str(ln)) not in [(os.path.basename(f), l) for f, l in cites]:
+            if (os.path.basename(fn), str(ln)) not in [(os.path.basename(f), l) for f, l in cites]:
                 # who is wrong: the markers written by gdlpp, or the compiler's arithmetic?
                 pp = os.path.join(sd, "pp.i")
                 subprocess.run([build["gdlpp"], "p.gdl", pp], cwd=sd, capture_output=True)
@@ -202,14 +216,14 @@ def run(tier, seed, replay=None):
                 problems.append("syntax seed at %s(%d): the program compiled" % (fn, ln))
             elif not cites:
                 problems.append("syntax seed at %s(%d): no 'unexpected token' error (errors: %s)" % (fn, ln, [l for l in err.split("\n") if "error" in l][:3]))
-            elif (fn, str(ln)) not in [(os.path.basename(f), l) for f, l in cites]:
+            elif (os.path.basename(fn), str(ln)) not in [(os.path.basename(f), l) for f, l in cites]:
                 problems.append("syntax seed at %s(%d): the error file cites %s" % (fn, ln, cites[:3]))
         # the same with the offending tokens on a line of their own that is the LAST thing before a #line marker (end of the
         # include file, a multi-line comment follows, a statement follows): the parser reports it only after its lookahead
         # has crossed the marker, and the filter has to use the previous file name and line offset
         inserts = []
         for fn2, ls in files.items():
-            if fn2 != "p.gdl" and ls:
+            if fn2 not in ("p.gdl", "more.gdh") and ls:   # (a bare more.gdh is the unrelated file that nothing includes)
                 inserts.append((fn2, len(ls) + 1))              # new last line of the include file
         for k2, l2 in enumerate(files["p.gdl"]):
             if l2.startswith("/* a block comment"):
@@ -235,7 +249,7 @@ def run(tier, seed, replay=None):
                 stats["parser_error_id_" + c[2]] += 1
             if rc == 0:
                 problems.append("syntax seed line at %s(%d): the program compiled" % (fn, ln))
-            elif cites and (fn, str(ln)) not in [(os.path.basename(f), l) for f, l, _e in cites]:
+            elif cites and (os.path.basename(fn), str(ln)) not in [(os.path.basename(f), l) for f, l, _e in cites]:
                 problems.append("syntax seed line at %s(%d): the error file cites %s" % (fn, ln, cites[:3]))
             elif not cites:
                 stats["syntax_seed_without_token_cite"] += 1
@@ -271,7 +285,7 @@ def run(tier, seed, replay=None):
         "syntax_seed_without_token_cite": stats["syntax_seed_without_token_cite"], "preprocessor_status_cases": stats["pp_cases"], "rejected": stats["rejected"],
         "traces_validated_against_impl": stats["pairs"] + stats["seeds"] + stats["pp_cases"], "disagreements_checked": len(rep.violations),
         "evaluations": stats["pairs"] + stats["seeds"], "distinct_nontrivial": len(distinct) + 2,
-        "rule": "each program in a flat and a decomposed spelling (include file, object/function-like macros with a continuation line, #if 0 / #ifdef regions, block/line comments, blank lines); undefined-class seeds at sampled (thorough: all) statement positions; 7 preprocessor status cases; distinct = distinct (file, statement kind, inside-macro) seed situations",
+        "rule": "each program in a flat and a decomposed spelling (include files, also in a subdirectory with a nested include of a sibling by its bare name and an unrelated file of that name next to the main file, object/function-like macros with a continuation line, #if 0 / #ifdef regions, block/line comments, blank lines); undefined-class seeds at sampled (thorough: all) statement positions; 7 preprocessor status cases; distinct = distinct (file, statement kind, inside-macro) seed situations",
         "samples": samples, "exhaustive": False,
     })
     rep.assumptions += ["macro bodies are not modelled; the equivalence of spellings is decided by byte equality of the fonts",
